@@ -8,7 +8,10 @@
              [spec] is computed from Spec/StringsSpec.v on the abstract sequence.
      mode D  everything the model knows in addition: which error, reference
              kinds, nil-ness, element and outer capacities.  [spec] is "*".
-   The model is Model/Strings.v at version [fixed]. *)
+   The model is Model/Strings.v at version [fixed].
+   Texts are printed in hex, a run of 8 or more equal bytes hh as "(hh*n)" (the runner does the same),
+   so the long texts of the "long" families (lengths around 1/4/64 KiB, histories of hundreds of Sets)
+   stay short on the line. *)
 From Coq Require Import List Arith Bool Ascii String ZArith NArith.
 From Verif Require Import Util Strconv Strings StringsSpec.
 Import ListNotations.
@@ -41,11 +44,33 @@ Inductive gop :=
 | GCopyFrom (src : arg)                               (* CopyTo(src, v, buf) *)
 | GCopyOut (d : ddst)                                 (* CopyTo(v, d, buf) *)
 | GCopy                                               (* Copy(v) *)
-| GReset.
+| GReset
+| GBufPrep (n : Z).                                   (* not a call of the inspector: before anything else the caller's buffer is
+                                                        used for n bytes of other data and Reset, so the calls that follow work
+                                                        with a recycled buffer of that capacity instead of a new one *)
 
 (* ---------- printing inputs ---------- *)
-Definition hexs (x : bytes) : string := hex_of_bytes x.
-Definition pr_seg (s : string) : string := "x" ++ hexs (bytes_of_string s).
+(* texts (element contents, operands) are written in hex, a run of 8 or more equal bytes hh as "(hh*n)":
+   long texts stay short on the line and nothing is lost.  Path segments and Loop keys stay plain hex. *)
+Definition hexp (x : bytes) : string := hex_of_bytes x.
+Definition run_step (acc : list (ascii * positive)) (c : ascii) : list (ascii * positive) :=
+  match acc with
+  | (d, n) :: t => if Ascii.eqb c d then (d, Pos.succ n) :: t else (c, xH) :: acc
+  | [] => [(c, xH)]
+  end.
+Definition runs (x : bytes) : list (ascii * positive) := rev_append (fold_left run_step x []) [].
+Fixpoint rep_str (n : nat) (s : string) : string :=
+  match n with O => "" | S k => s ++ rep_str k s end.
+Definition pr_run (r : ascii * positive) : string :=
+  let '(c, n) := r in
+  if (n <? 8)%positive then rep_str (Pos.to_nat n) (hex_of_ascii c)
+  else "(" ++ hex_of_ascii c ++ "*" ++ Z_to_string (Zpos n) ++ ")".
+Definition hexs (x : bytes) : string :=
+  match x with
+  | _ :: _ :: _ :: _ :: _ :: _ :: _ :: _ :: _ => String.concat "" (map pr_run (runs x))
+  | _ => hex_of_bytes x                            (* fewer than 8 bytes: no run to write *)
+  end.
+Definition pr_seg (s : string) : string := "x" ++ hexp (bytes_of_string s).
 Definition pr_path (p : list string) : string :=
   match p with [] => "-" | _ => join "." (map pr_seg p) end.
 Definition pr_rep (r : rep) : string := match r with SS => "S" | PP => "P" end.
@@ -96,6 +121,7 @@ Definition pr_gop (o : gop) : string :=
   | GCopyOut d => "O:" ++ pr_ddst d
   | GCopy => "Y"
   | GReset => "R"
+  | GBufPrep n => "B:" ++ Z_to_string n
   end.
 
 (* ---------- running the model ---------- *)
@@ -213,6 +239,7 @@ Definition gstep (st : hst) (o : gop) : hst * gres :=
     | Ret x' e => ({| h_arg := x'; h_nid := nid |}, RErr e)
     | Panic k => (st, RPanic k)
     end
+  | GBufPrep _ => (st, RErr None)
   end.
 
 (* ---------- printing observations ---------- *)
@@ -236,7 +263,7 @@ Definition pr_wr_cap (detail : bool) (w : wr) (reflen : Z) : string :=
        end.
 Definition pr_visit (detail : bool) (v : option string * gref * bytes) : string :=
   let '(k, g, d) := v in
-  (match k with Some s => (if detail then "k" else "") ++ hexs (bytes_of_string s) | None => if detail then "k-" else "-" end)
+  (match k with Some s => (if detail then "k" else "") ++ hexp (bytes_of_string s) | None => if detail then "k-" else "-" end)
   ++ ":" ++ pr_ref detail g ++ "=" ++ hexs d.
 Definition pr_panic (detail : bool) (k : pkind) : string :=
   if detail then match k with NilDeref => "PANIC:nilderef" | IndexRange => "PANIC:index" end else "P".
@@ -292,7 +319,7 @@ Definition classify (r : rep) (t : gtext) : tclass :=
   end.
 
 Definition pr_svisit (want : bool) (j : nat) (v : string * text_t) : string :=
-  (if want then hexs (bytes_of_string (fst v)) else "-") ++ ":" ++ nat_to_string j ++ "=" ++ hexs (snd v).
+  (if want then hexp (bytes_of_string (fst v)) else "-") ++ ":" ++ nat_to_string j ++ "=" ++ hexs (snd v).
 Fixpoint number {A} (i : nat) (l : list A) : list (nat * A) :=
   match l with [] => [] | x :: r => (i, x) :: number (S i) r end.
 
@@ -385,6 +412,7 @@ Definition sspec (r : rep) (ptr : bool) (a : aseq) (o : gop) : salt :=
     end
   | GCopy => one ("e-,a0," ++ pr_aseq (copy_appended [] a)) a
   | GReset => if ptr then one "e-" (reset_seq a) else one "e!" a
+  | GBufPrep _ => one "e-" a
   end.
 
 (* the spec text of a whole case.  [acc] holds the alternative traces so far (each reversed).  A call
@@ -449,6 +477,7 @@ Definition op_tag (x : arg) (o : gop) : string :=
   | GCopyOut _ => "copyout"
   | GCopy => "copy"
   | GReset => "reset"
+  | GBufPrep _ => "bufprep"
   end.
 Definition form_tag (x : arg) : string :=
   match x with
@@ -641,6 +670,177 @@ Fixpoint rnd_cases (count : nat) (s : rng) (idx : nat) : list string :=
     case_lines ("r" ++ nat_to_string idx) "random" x ops ++ rnd_cases c s3 (S idx)
   end.
 
+(* ---------- long texts and long histories ---------- *)
+(* Storage handed out for one Set has to stay what it is for as long as the element lives: through texts of
+   any length and through any number of later calls.  Code that recycles storage typically does so at sizes
+   like 1, 4 or 64 KiB, so the texts here have lengths around those sizes and the many-call histories put more
+   than those sizes into the sequence, a little at a time; every element is re-read after every call. *)
+Definition zrep (c : ascii) (n : Z) : bytes := repeat c (Z.to_nat n).
+Definition letter (k : nat) : ascii := ascii_of_nat (97 + Nat.modulo k 26).
+(* exactly n bytes when n > length of head: the head, a run of one letter, ">" *)
+Definition ltext (head : bytes) (fill : ascii) (n : Z) : bytes :=
+  (head ++ zrep fill (n - zlen head - 1) ++ b ">")%list.
+
+(* which buffer the Sets of a history copy into *)
+Inductive bufv := BOwn | BFresh | BReused (n : Z).   (* Set's own / a new caller buffer / a recycled caller buffer *)
+Definition buf_prefix (v : bufv) : list gop := match v with BReused n => [GBufPrep n] | _ => [] end.
+Definition buf_wb (v : bufv) : bool := match v with BOwn => false | _ => true end.
+Definition buf_tag (v : bufv) : string :=
+  match v with BOwn => "setbuf-own" | BFresh => "setbuf-new" | BReused _ => "setbuf-recycled" end.
+
+Definition other_rep (x : arg) : rep := match rep_of x with SS => PP | PP => SS end.
+
+(* one long text, then calls on the other elements (short, long, empty texts), reads in between *)
+Definition long_then_others (x : arg) (v : bufv) (n : Z) : list gop :=
+  let '(ov, op_) := own_kinds x in
+  let wb := buf_wb v in
+  let A := ltext (b "<") (letter 11) n in
+  let B := ltext e_acute (letter 12) n in
+  buf_prefix v ++
+  [GSet wb (tx ov A) ["0"]; GSet wb (tx op_ (b "xyz")) ["1"]; GCmp OpEq A ["0"]; GGet true ["0"];
+   GSet wb (tx ov ee) ["2"]; GSet wb (tx op_ B) ["1"]; GSet wb (tx ov []) ["2"]; GGet false ["1"];
+   GCmp OpEq A ["0"]; GCmp OpLt A ["1"]; GLoop true None [];
+   GSet wb (tx ov (b "w")) ["0"]; GCmp OpEq B ["1"]; GSet wb (tx op_ (b "Q")) ["3"]; GGet true ["1"];
+   GDeq false (lit (other_rep x) false [b "w"; B; []; b "Q"]); GCopyOut (DFresh (rep_of x));
+   GSet wb (tx ov (b "last")) ["2"]; GCmp OpEq B ["1"]].
+
+(* the k-th text of a many-call history: about [size] bytes, all different; the empty text and multi-byte
+   texts in between *)
+Definition kth_text (k : nat) (size : Z) : bytes :=
+  let h := b ("v" ++ nat_to_string k) in
+  if Nat.eqb (Nat.modulo k 7) 3 then []
+  else if Nat.eqb (Nat.modulo k 5) 1 then (e_acute ++ h ++ zrep (letter k) (size - zlen h - 2))%list
+  else (h ++ zrep (letter k) (size - zlen h))%list.
+
+Definition keep : bytes := b "keep-me".
+
+(* what is read back now and then *)
+Definition kth_read (x : arg) (k : nat) (i : string) : gop :=
+  match Nat.modulo (Nat.div k 16) 5 with
+  | 0 => GCmp OpEq keep ["0"]
+  | 1 => GGet true ["0"]
+  | 2 => GLoop true None []
+  | 3 => GGet false [i]
+  | _ => GLen ["0"]
+  end%nat.
+
+Fixpoint many_sets (x : arg) (wb : bool) (size : Z) (n k : nat) : list gop :=
+  match n with
+  | O => []
+  | S n' =>
+    let '(ov, op_) := own_kinds x in
+    (* indices 1 and 2 in turn, index 3 rarely; index 0 keeps what the first Set stored *)
+    let i := if Nat.eqb (Nat.modulo k 37) 36 then "3" else if Nat.even k then "1" else "2" in
+    (GSet wb (tx (if Nat.eqb (Nat.modulo k 3) 0 then op_ else ov) (kth_text k size)) [i] ::
+     (if Nat.eqb (Nat.modulo k 16) 15 then [kth_read x k i] else []) ++
+     (if Nat.eqb k 100 then [GCopyFrom (lit SS false [b "zz"; []])] else []) ++
+     (if Nat.eqb k 200 then [GCopyOut (DFresh PP)] else [])) ++
+    many_sets x wb size n' (S k)
+  end.
+
+Definition many_short_sets (x : arg) (v : bufv) (size : Z) (n : nat) : list gop :=
+  let '(ov, _) := own_kinds x in
+  buf_prefix v ++ [GSet (buf_wb v) (tx ov keep) ["0"]; GGet true ["0"]] ++ many_sets x (buf_wb v) size n 0 ++
+  [GCmp OpEq keep ["0"]; GLoop true None []].
+
+Definition long_values : list arg :=
+  let l := [b "zero"; e_acute; b "ab"; []] in
+  [APtr (mk_sq SS 1 l 1); AVal (mk_sq PP 1 l 0); APtr (mk_sq PP 1 l 2); AVal (mk_sq SS 1 l 0)].
+
+Definition bufvs : list bufv := [BOwn; BFresh; BReused 100000].
+
+(* the same beginning only: a text of 64 KiB is re-read (and re-printed) after every call *)
+Definition long_brief (x : arg) (v : bufv) (n : Z) : list gop :=
+  let '(ov, op_) := own_kinds x in
+  let wb := buf_wb v in
+  let A := ltext (b "<") (letter 11) n in
+  buf_prefix v ++
+  [GSet wb (tx ov A) ["0"]; GSet wb (tx op_ (b "xyz")) ["1"]; GCmp OpEq A ["0"]; GSet wb (tx ov (b "Q")) ["2"];
+   GGet true ["0"]].
+
+Definition lh : Type := (string * arg * list gop)%type.
+Definition lt_case (x : arg) (v : bufv) (n : Z) : lh := ("long,longtext," ++ buf_tag v, x, long_then_others x v n).
+Definition lb_case (x : arg) (v : bufv) (n : Z) : lh := ("long,longtext," ++ buf_tag v, x, long_brief x v n).
+Definition ms_case (x : arg) (v : bufv) (sn : Z * Z) : lh :=
+  ("long,manysets," ++ buf_tag v, x, many_short_sets x v (fst sn) (Z.to_nat (snd sn))).
+
+(* text lengths around the sizes at which storage is typically recycled; (bytes per text, number of Sets)
+   putting more than 1, 4 and 64 KiB into the sequence *)
+(* (functions of the tier, not constants: an extracted constant is computed when the program starts) *)
+Definition quick_long (tier : Z) : list lh :=
+  let recycled := BReused 100000 in
+  app (flat_map (fun x =>
+         app (map (lt_case x BOwn) [1023; 1024; 1025; 4097]%Z)
+        (app [lt_case x BFresh 1025%Z; lt_case x recycled 1025%Z]
+             (map (ms_case x BOwn) [(8, 160); (40, 120); (600, 120)]%Z))) long_values)
+      (match long_values with
+       | v0 :: v1 :: v2 :: _ =>
+         [lt_case v0 BFresh 4097%Z; lt_case v2 recycled 4097%Z; ms_case v0 BFresh (8, 160)%Z; ms_case v2 recycled (40, 120)%Z;
+          lb_case v0 BOwn 65537%Z; lb_case v1 BOwn 65537%Z]
+       | _ => []
+       end).
+
+Definition thorough_long (tier : Z) : list lh :=
+  flat_map (fun x => flat_map (fun v =>
+    app (map (lt_case x v) [255; 256; 257; 511; 513; 1023; 1024; 1025; 2047; 2048; 2049; 4095; 4096; 4097; 8193]%Z)
+   (app (map (lb_case x v) [16385; 32769; 65535; 65536; 65537; 131073]%Z)
+        (map (ms_case x v) [(5, 300); (5, 1000); (8, 160); (16, 300); (40, 120); (70, 300); (230, 300);
+                            (600, 120); (300, 1000)]%Z))) bufvs) long_values.
+
+Definition long_histories (tier : Z) : list lh := if Z.eqb tier 0 then quick_long tier else thorough_long tier.
+
+(* random long histories: mostly Sets (in and out of range, own buffer or the caller's), texts of all sizes *)
+Definition rnd_long_text (s : rng) : bytes * rng :=
+  let '(k, s1) := rng_nat s 8 in
+  let '(f, s2) := rng_nat s1 26 in
+  match k with
+  | 0 => ([], s2)
+  | 1 => (b "Q", s2)
+  | 2 => (ee, s2)
+  | 3 | 4 => let '(n, s3) := rng_nat s2 300 in (ltext (b "m") (letter f) (Z.of_nat n + 3), s3)
+  | 5 => let '(n, s3) := rng_nat s2 40 in (ltext e_acute (letter f) (Z.of_nat n + 4), s3)
+  | 6 => let '(j, s3) := rng_nat s2 4 in (ltext (b "T") (letter f) (nth j [1023; 1025; 1500; 4097]%Z 1025%Z), s3)
+  | _ => (b "longer text", s2)
+  end.
+
+Definition rnd_long_op (s : rng) (x : arg) : gop * rng :=
+  let '(ov, op_) := own_kinds x in
+  let '(c, s1) := rng_nat s 16 in
+  if Nat.ltb c 9 then
+    let '(t, s2) := rnd_long_text s1 in let '(i, s3) := rnd_index s2 x in
+    let '(w, s4) := rng_nat s3 6 in
+    (GSet (Nat.eqb w 0) (tx (if Nat.even w then ov else op_) t) [i], s4)
+  else match c with
+  | 9 | 10 => let '(t, s2) := rnd_long_text s1 in let '(i, s3) := rnd_index s2 x in
+              let '(k, s4) := rng_nat s3 6 in
+              (GCmp (nth k six OpEq) (if Nat.even k then elem_or x i t else t) [i], s4)
+  | 11 => let '(i, s2) := rnd_index s1 x in (GGet true [i], s2)
+  | 12 => (GLoop true None [], s1)
+  | 13 => let '(t, s2) := rnd_long_text s1 in (GCopyFrom (lit PP true [t; b "u"]), s2)
+  | 14 => (GDeq false (lit (other_rep x) false (g_abs x)), s1)
+  | _ => let '(k, s2) := rng_nat s1 6 in
+         (nth k [GCopyOut (DOne PP); GCopy; GReset; GCap ["0"]; GLen ["1"]] (GGet false ["0"]), s2)
+  end.
+
+Fixpoint rnd_long_ops (len : nat) (s : rng) (st : hst) : list gop * rng :=
+  match len with
+  | O => ([], s)
+  | S l => let '(o, s1) := rnd_long_op s (h_arg st) in
+           let '(st', _) := gstep st o in
+           let '(r, s2) := rnd_long_ops l s1 st' in (o :: r, s2)
+  end.
+
+Fixpoint rnd_long_cases (count : nat) (s : rng) (idx : nat) : list string :=
+  match count with
+  | O => []
+  | S c =>
+    let '(len, s1) := rng_nat s 100 in
+    let '(vi, s2) := rng_nat s1 4 in
+    let x := nth vi long_values AForeign in
+    let '(ops, s3) := rnd_long_ops (100 + len) s2 {| h_arg := x; h_nid := start_nid |} in
+    case_lines ("lr" ++ nat_to_string idx) "long,random" x ops ++ rnd_long_cases c s3 (S idx)
+  end.
+
 (* tier 0 = quick, 1 = thorough *)
 Definition cases (tier : Z) (seed : Z) : list string :=
   let vals := (flat_map values_of_seq (seqs tier) ++ odd_values)%list in
@@ -656,4 +856,8 @@ Definition cases (tier : Z) (seed : Z) : list string :=
                           case_lines ("h" ++ nat_to_string i ++ "." ++ nat_to_string (fst jo)) "history" x (snd jo))
                        (number 0 (enum (if Z.eqb tier 0 then dq else dt) (alphabet x))))
            (number 0 hist_values) ++
-  rnd_cases (if Z.eqb tier 0 then 300 else 3000) (rng_of_seed seed) 0.
+  rnd_cases (if Z.eqb tier 0 then 300 else 3000) (rng_of_seed seed) 0 ++
+  flat_map (fun jc : nat * lh =>
+              let '(j, (kind, x, ops)) := jc in case_lines ("l" ++ nat_to_string j) kind x ops)
+           (number 0 (long_histories tier)) ++
+  rnd_long_cases (if Z.eqb tier 0 then 4 else 60) (rng_next (rng_of_seed (seed + 17))) 0.
